@@ -130,6 +130,29 @@ func countNodes(x any, per map[expr.Operator]int) int {
 	return n
 }
 
+// collectNodes lists the expression nodes of a tree in pre-order (the nodes
+// countNodes counts).
+func collectNodes(x any, out *[]*expr.Expression) {
+	switch v := x.(type) {
+	case *expr.Expression:
+		if v == nil {
+			return
+		}
+		*out = append(*out, v)
+		collectNodes(v.Left, out)
+		collectNodes(v.Right, out)
+	case []*expr.Expression:
+		for _, e := range v {
+			collectNodes(e, out)
+		}
+	case *expr.RangeBoundary:
+		if v != nil {
+			collectNodes(v.Min, out)
+			collectNodes(v.Max, out)
+		}
+	}
+}
+
 // foldCheck is the tracing fold M6: it lays the call log over the expression tree.
 type foldCheck struct {
 	byResult map[string]call
@@ -382,6 +405,29 @@ func checkC15(c FoldCase) (f *report.Failure, nodes int, distinctOps int) {
 		if last := tr.log[len(tr.log)-1]; out != last.result {
 			return report.Failf("blank-root", "Render returned %q, the root call returned %q", out, last.result), nodes, distinctOps
 		}
+	case "undefined-node":
+		// one node of the tree (the (Op mod nodes)-th in pre-order) becomes the zero
+		// Expression: its operator, Undefined, has a function in no map, so Render has to
+		// fail and return nothing - under the tracing map, under Shared and for the
+		// stock driver alike
+		var all []*expr.Expression
+		collectNodes(e, &all)
+		if len(all) == 0 {
+			return nil, nodes, distinctOps
+		}
+		victim := all[c.Op%len(all)]
+		was := victim.Op
+		*victim = expr.Expression{}
+		tr := &tracer{}
+		for name, m := range map[string]map[expr.Operator]driver.RenderFN{"a function for every operator": tr.fullMap(), "driver.Shared": driver.Shared} {
+			out, err := render(m, e, c.Embed)
+			if err == nil || out != "" {
+				return report.Failf("undefined-operator-rendered", "a %v node (pre-order index %d) of the tree was replaced by the zero Expression, whose operator has no registered function; Render with %s returned %q, err %v (tree now %#v)", was, c.Op%len(all), name, out, err, e), nodes, distinctOps
+			}
+		}
+		if out, err := driver.NewPostgresDriver().Render(e); err == nil || out != "" {
+			return report.Failf("undefined-operator-rendered", "a %v node of the tree was replaced by the zero Expression; the stock driver's Render returned %q, err %v (tree now %#v)", was, out, err, e), nodes, distinctOps
+		}
 	case "nil-map", "empty-map":
 		m := map[expr.Operator]driver.RenderFN{}
 		if c.Mode == "nil-map" {
@@ -425,7 +471,7 @@ func TestC15(t *testing.T) {
 	cfg := report.Load()
 	st := report.New("C15", cfg)
 	defer st.Finish(t)
-	st.Rule("trees: rapid query trees over every operator (incl. fuzzy/boost, lists, ranges, field groups) turned into expressions through the constructors, plus hand-built trees that pass Validate; render-function maps: a tracing map (every operator's function tags its output with a unique call id and logs its arguments), Shared with exactly one operator overridden, the tracing map / Shared with one operator removed or failing - for every operator. Oracle: the tracing fold lays the call log over the tree (one call per node, operator by operator, children before parents, each argument is the child's recorded result in at most one pair of parentheses, containers hold their children's results in order, Render returns the root call's result); an override changes the output only at nodes of that operator; a missing function gives an error and an empty string iff the tree contains that operator; ToPostgres / ToParameterizedPostgres fail on every query with ~ or ^. Non-trivial = tree with >= 3 nodes and >= 2 distinct operators under a map that differs from Shared; distinct by (tree shape, mode, operator).")
+	st.Rule("trees: rapid query trees over every operator (incl. fuzzy/boost, lists, ranges, field groups) turned into expressions through the constructors, plus hand-built trees that pass Validate; render-function maps: a tracing map (every operator's function tags its output with a unique call id and logs its arguments), Shared with exactly one operator overridden, the tracing map / Shared with one operator removed or failing - for every operator. Oracle: the tracing fold lays the call log over the tree (one call per node, operator by operator, children before parents, each argument is the child's recorded result in at most one pair of parentheses, containers hold their children's results in order, Render returns the root call's result); an override changes the output only at nodes of that operator; a missing function gives an error and an empty string iff the tree contains that operator; a tree in which any one node was replaced by the zero Expression (operator Undefined, registered nowhere) gives an error and an empty string under every map; ToPostgres / ToParameterizedPostgres fail on every query with ~ or ^. Non-trivial = tree with >= 3 nodes and >= 2 distinct operators under a map that differs from Shared; distinct by (tree shape, mode, operator).")
 	st.Assume("sibling order and exact parenthesis placement are not prescribed", "RenderParam's use of the map is only checked through the fuzzy/boost corollary")
 	regress(t, st, "C15")
 	_ = activeFindings(st, "C15")
@@ -451,7 +497,7 @@ func TestC15(t *testing.T) {
 		}
 		return true
 	}
-	modes := []string{"trace", "override", "remove-traced", "remove-shared", "fail", "stock", "blank", "nil-map", "empty-map"}
+	modes := []string{"trace", "override", "remove-traced", "remove-shared", "fail", "stock", "blank", "nil-map", "empty-map", "undefined-node"}
 
 	// exhaustive: hand-built trees and a fixed set of small generated trees x every mode x every operator
 	leaves := gen.LeafAlphabet(true)
